@@ -318,6 +318,7 @@ def run_scenario(scn, chooser):
     env = Env(scn["script"], model)
     env.chooser = chooser
     kernel = vk.Kernel(chooser, env)
+    kernel.max_selects = scn.get("max_selects", 200)
     vk.install(kernel)
     fails = []
     obs = []
@@ -663,6 +664,32 @@ def family_lifecycle(thorough):
                         yield {"paste_threshold": 8, "sigint_event": sig, "dtss": dtss, "script": list(head) + [("reenter", mid)] + list(tail), "family": "lifecycle"}
 
 
+def family_long_session(thorough):
+    """One Input, hundreds of requests: keys, escape sequences, plain / thread-safe / scheduled events, ungets and SIGINTs in a fixed
+    rotation (default schedule only) - anything that counts requests or ages internal state meets its threshold."""
+    n = 900 if thorough else 300
+    for sig in (False, True):
+        for rot in (0, 3):
+            script = []
+            for k in range(n):
+                m = (k + rot) % 7
+                if m == 0:
+                    script += [("bytes", b"a"), ("req", 0)]
+                elif m == 1:
+                    script += [("event", "e%d" % k), ("req", 0)]
+                elif m == 2:
+                    script += [("ts", "t%d" % k), ("req", None)]
+                elif m == 3:
+                    script += [("sched", "s%d" % k, T0 - 1.0), ("req", 5.0)]
+                elif m == 4:
+                    script += [("bytes", b"\x1b[A"), ("unget", b"b"), ("req", 0), ("req", 0)]
+                elif m == 5:
+                    script += [("sigint",), ("req", None)] if sig else [("ts", "f%d" % k), ("event", "e%d" % k), ("req", 0), ("req", 0)]
+                else:
+                    script += [("req", 0)]
+            yield {"paste_threshold": 8, "sigint_event": sig, "script": script, "family": "long_session", "max_selects": 20 * n}
+
+
 def usable(scn):
     """Drop scripts in which an untimed request would block forever by construction (nothing after it can wake it)."""
     script = scn["script"]
@@ -690,7 +717,7 @@ def show(scn):
 def all_scenarios(tier):
     thorough = tier == "thorough"
     out = []
-    for fam in (family_bytes, family_events, family_three_requests, family_large, family_lifecycle):
+    for fam in (family_bytes, family_events, family_three_requests, family_large, family_lifecycle, family_long_session):
         for scn in fam(thorough):
             if usable(scn):
                 out.append(scn)
@@ -700,7 +727,7 @@ def all_scenarios(tier):
 def timing_independent(scn):
     """Scenarios whose default schedule does not depend on how long anything takes: every request has timeout 0, scheduled events
     lie in the past.  These are replayed on a REAL pty, real pipes, real select and real signal delivery."""
-    if scn["family"] == "large_burst":
+    if scn["family"] in ("large_burst", "long_session"):
         return False
     for it in scn["script"]:
         if it[0] == "req" and it[1] != 0:
@@ -846,7 +873,7 @@ def shard(args):
     scns = all_scenarios(tier)
     for si in range(idx, len(scns), nshards):
         scn = scns[si]
-        b = 0 if scn["family"] == "large_burst" else bound
+        b = 0 if scn["family"] in ("large_burst", "long_session") else bound
         shown = show(scn)
 
         def on_exec(prefix, ch, result):
